@@ -110,6 +110,8 @@ class Renderer:
             return f"({self.expr(e[1], cols, outer)} {t} {self.expr(e[2], cols, outer)})"
         if t in ("and", "or"):
             return f"({self.expr(e[1], cols, outer)} {t.upper()} {self.expr(e[2], cols, outer)})"
+        if t in ("isdistinct", "isnotdistinct"):
+            return f"({self.expr(e[1], cols, outer)} IS {'NOT ' if t == 'isnotdistinct' else ''}DISTINCT FROM {self.expr(e[2], cols, outer)})"
         if t == "not":
             return f"(NOT {self.expr(e[1], cols, outer)})"
         if t == "neg":
@@ -358,7 +360,11 @@ class Gen:
         # BOOL
         if c < 4:
             ty = rng.pick([INT, INT, STR]) if any(t == STR for t in types) else INT
-            return (rng.pick(["=", "<>", "<", "<=", ">", ">="]), self.expr(types, ty, depth - 1, outer), self.expr(types, ty, depth - 1, outer))
+            ops = ["=", "<>", "<", "<=", ">", ">="] + (["isdistinct", "isnotdistinct"] if "distinct_from" in self.f else [])
+            if "distinct_from" in self.f and rng.chance(1, 6):
+                ty = BOOL
+                ops = ["isdistinct", "isnotdistinct"]
+            return (rng.pick(ops), self.expr(types, ty, depth - 1, outer), self.expr(types, ty, depth - 1, outer))
         if c < 6:
             return (rng.pick(["and", "or"]), self.expr(types, BOOL, depth - 1, outer), self.expr(types, BOOL, depth - 1, outer))
         if c < 7:
